@@ -1110,7 +1110,10 @@ fn gen_oracle_case(rng: &mut Rng, id: String) -> Case {
             // two steps: a matching response with a CNAME that is then cut off (settles nothing),
             // followed by a response that repeats the CNAME target as its question
             ops.push(format!("poll {}", t0));
-            let target = rand_name(rng);
+            let mut target = rand_name(rng);
+            if target == labels {
+                target.push(b"zz".to_vec()); // the rewritten name must differ from the queried one
+            }
             let mut d1 = vec![0, 0, 0x81, 0x80, 0, 1, 0, 2, 0, 0, 0, 0];
             d1.extend_from_slice(&enc_name(&labels));
             d1.extend_from_slice(&ty.to_be_bytes());
@@ -1343,7 +1346,17 @@ fn oracle_case(c: &Case, fails: &mut Vec<String>, stats: &mut BTreeMap<String, u
     let tk: usize = if ora == "timing-multi" { c.get_i("track", 1) as usize } else { 0 };
     let final_get = obs.iter().rev().find_map(|o| match o { Obs::Get(k, g) if *k == tk => Some(g.clone()), _ => None });
     // --- scenario-specific expectations
-    if let Some(slug) = ora.strip_prefix("clause:") {
+    // two-step scenario: the verdict only applies when the last response's question really differs
+    // from the question the query was started with (its first transmission); a "rewritten" name that
+    // happens to equal the queried name makes the second response an ordinary matching answer
+    let repeats_original = ora == "clause:rewritten-question"
+        && match (first_q.get(&0), rsps.last()) {
+            (Some(q0), Some((_, _, _, _, _, data, _))) => q0.len() > 12 && data.len() >= q0.len() && data[12..q0.len()] == q0[12..],
+            _ => false,
+        };
+    if repeats_original {
+        *stats.entry("twostep_same_question".into()).or_default() += 1;
+    } else if let Some(slug) = ora.strip_prefix("clause:") {
         match final_get {
             Some(GetR::Ok(a)) => fail(&format!("answer-accepted-{}", slug), format!("addresses {:?} taken from a response with {}", a.iter().map(|x| hex(x)).collect::<Vec<_>>(), slug)),
             Some(GetR::Failed) => fail(&format!("nonmatching-response-failed-query-{}", slug), format!("a response with {} (rcode != NXDomain) made the query fail", slug)),
